@@ -17,7 +17,13 @@ open Ctrmml.Mds Ctrmml.Seq Tables
 inductive Node
   | ev (e : MEv)
   | loop (body : List Node) (n : Nat)
+  /-- a loop with a break: `body` is the part before the FIRST break, `tail` the part after it
+  (which may contain further break markers `xbrk` of the same loop: `convert_track` drops them) -/
   | loopB (body tail : List Node) (n : Nat)
+  /-- a second, third, … break marker of the enclosing loop -/
+  | xbrk
+  /-- a subroutine call `PAT arg`, annotated with the tick string its callee plays -/
+  | call (arg : Nat) (T : List Tk)
 
 mutual
 /-- the event list of a bracket structure -/
@@ -25,6 +31,8 @@ def Node.flat : Node → List MEv
   | .ev e => [e]
   | .loop body n => ⟨mds_LP, 0⟩ :: (flatL body ++ [⟨mds_LPF, n⟩])
   | .loopB body tail n => ⟨mds_LP, 0⟩ :: (flatL body ++ ⟨mds_LPB, 0⟩ :: (flatL tail ++ [⟨mds_LPF, n⟩]))
+  | .xbrk => [⟨mds_LPB, 0⟩]
+  | .call arg _ => [⟨mds_PAT, arg⟩]
 def flatL : List Node → List MEv
   | [] => []
   | t :: ts => t.flat ++ flatL ts
@@ -41,20 +49,52 @@ def Node.exp (nS nM : Nat) : Node → List Tk
   | .loopB body tail n =>
     repeatL (passes n - 1) (expL nS nM body ++ expL nS nM tail) ++ expL nS nM body ++
       (if n % 256 ≤ 1 then expL nS nM tail else [])
+  | .xbrk => []
+  | .call _ T => T
 def expL (nS nM : Nat) : List Node → List Tk
   | [] => []
   | t :: ts => t.exp nS nM ++ expL nS nM ts
 end
 
 mutual
-/-- all leaves are events of the linear fragment -/
+/-- all leaves are events of the linear fragment (or calls / further break markers) -/
 def Node.lin : Node → Bool
   | .ev e => linEv e
   | .loop body _ => linL body
   | .loopB body tail _ => linL body && linL tail
+  | .xbrk => true
+  | .call _ _ => true
 def linL : List Node → Bool
   | [] => true
   | t :: ts => t.lin && linL ts
+end
+
+mutual
+/-- further break markers stand only where a first break of the same loop precedes them: directly
+in the `tail` of a `loopB` (`top` = "this list is such a tail") -/
+def Node.brkOk : Bool → Node → Bool
+  | _, .ev _ => true
+  | _, .loop body _ => brkOkL false body
+  | _, .loopB body tail _ => brkOkL false body && brkOkL true tail
+  | top, .xbrk => top
+  | _, .call _ _ => true
+def brkOkL : Bool → List Node → Bool
+  | _, [] => true
+  | top, t :: ts => t.brkOk top && brkOkL top ts
+end
+
+mutual
+/-- every call of the structure finds, through the pointer table of `seq`, a stream that plays the
+annotated tick string and returns -/
+def Node.callsOk (seq : List Nat) (base mj : Nat) : Node → Prop
+  | .ev _ => True
+  | .loop body _ => callsOkL seq base mj body
+  | .loopB body tail _ => callsOkL seq base mj body ∧ callsOkL seq base mj tail
+  | .xbrk => True
+  | .call arg T => ∃ t, slotTarget seq base (arg % 256) = some t ∧ SubPlays seq base mj t T
+def callsOkL (seq : List Nat) (base mj : Nat) : List Node → Prop
+  | [] => True
+  | t :: ts => t.callsOk seq base mj ∧ callsOkL seq base mj ts
 end
 
 mutual
@@ -62,9 +102,24 @@ def Node.noBreak : Node → Bool
   | .ev _ => true
   | .loop body _ => noBreakL body
   | .loopB _ _ _ => false
+  | .xbrk => false
+  | .call _ _ => false
 def noBreakL : List Node → Bool
   | [] => true
   | t :: ts => t.noBreak && noBreakL ts
+end
+
+mutual
+/-- no subroutine calls -/
+def Node.noCall : Node → Bool
+  | .ev _ => true
+  | .loop body _ => noCallL body
+  | .loopB body tail _ => noCallL body && noCallL tail
+  | .xbrk => true
+  | .call _ _ => false
+def noCallL : List Node → Bool
+  | [] => true
+  | t :: ts => t.noCall && noCallL ts
 end
 
 /-! ### the two loop instructions in the encoder -/
@@ -124,6 +179,73 @@ theorem encEv_lpf_nobreak (nS nM : Nat) (e : Enc) (arg : Nat) (r : List Nat) (hb
   have h : encOther nS nM e mds_LPF arg = .ok { e with out := e.out ++ [mds_LPF, arg % 256], breaks := r } := by
     rw [encOther_lpf, hb]; simp
   exact encEv_other (by decide) h
+
+/-! ### the subroutine call and the dropped break marker -/
+
+/-- a break marker of a loop that already has a break is dropped without a trace -/
+theorem encEv_xbrk (nS nM : Nat) (e : Enc) (arg : Nat) (h : e.breaks.head?.getD 0 ≠ 0) :
+    encEv nS nM e ⟨mds_LPB, arg⟩ = .ok e := by
+  simp [encEv, h]
+
+theorem step_pat {seq : List Nat} {base mj : Nat} {s : St} {k t : Nat} (h : seq[s.pc]? = some mds_PAT)
+    (h1 : seq[s.pc + 1]? = some k) (ht : slotTarget seq base k = some t) :
+    step seq base mj s = .ok { s with pc := t, calls := (s.pc + 2, none) :: s.calls } := by
+  simp [step, rd, h, h1, ht, mds_REST, mds_SLR, mds_FINISH, mds_DMFINISH, mds_JUMP, mds_LP, mds_LPF, mds_LPB, mds_LPBL,
+    mds_PAT]
+
+theorem step_return {seq : List Nat} {base mj : Nat} {s : St} {ret : Nat}
+    {cs : List (Nat × Option (Nat × Option Nat × Option Nat))}
+    (h : seq[s.pc]? = some mds_FINISH) (hc : s.calls = (ret, none) :: cs) :
+    step seq base mj s = .ok { s with pc := ret, calls := cs, lastNote := none, lastRest := none } := by
+  simp [step, rd, h, hc, mds_REST, mds_SLR, mds_FINISH]
+
+/-- the encoder at a subroutine call: two bytes, both registers forgotten -/
+def afterPAT (e : Enc) (arg : Nat) : Enc :=
+  { e with out := e.out ++ [mds_PAT, arg % 256], lastRest := U16, lastNote := U16, lastType := mds_PAT }
+
+theorem encEv_pat (nS nM : Nat) (e : Enc) (arg : Nat) : encEv nS nM e ⟨mds_PAT, arg⟩ = .ok (afterPAT e arg) := by
+  have n1 : ¬ (mds_PAT = mds_SEGNO) := by decide
+  have n2 : ¬ (mds_PAT = mds_SLR ∨ mds_PAT = mds_FINISH) := by decide
+  have n3 : byteArgOps.contains mds_PAT = false := by decide
+  have n4 : ¬ (mds_PAT = mds_MTAB) := by decide
+  have n5 : ¬ (mds_PAT = mds_INS ∨ mds_PAT = mds_PCM) := by decide
+  have n6 : ¬ (mds_PAT = mds_PEG) := by decide
+  have n7 : wordArgOps.contains mds_PAT = false := by decide
+  have n8 : ¬ (mds_PAT = mds_JUMP) := by decide
+  have h : encOther nS nM e mds_PAT arg =
+      .ok { e with out := e.out ++ [mds_PAT, arg % 256], lastRest := U16, lastNote := U16 } := by
+    simp only [encOther, n1, n2, n3, n4, n5, n6, n7, n8, if_false, Bool.false_eq_true, if_true]
+  exact encEv_other (by decide) h
+
+/-- **the call / return join point** -/
+theorem pat_good {seq : List Nat} {base mj : Nat} {e : Enc} {s : St} {O : List Tk} (g : Good e s O) (arg : Nat)
+    (hp : (afterPAT e arg).out <+: seq) {t : Nat} (ht : slotTarget seq base (arg % 256) = some t) {T : List Tk}
+    (hsub : SubPlays seq base mj t T) :
+    ∃ s', Reach seq base mj s s' ∧ Frame s s' ∧ Good (afterPAT e arg) s' (T.reverse ++ O) := by
+  have hp' : e.out ++ [mds_PAT, arg % 256] <+: seq := hp
+  obtain ⟨s1, r1, f1, i1⟩ := resolve (base := base) (mj := mj) g (b := mds_PAT) (by decide) hp'
+  have r0 : seq[s1.pc]? = some mds_PAT := by rw [i1.pc]; exact rd_at hp'
+  have r1' : seq[s1.pc + 1]? = some (arg % 256) := by rw [i1.pc]; exact rd_at1 hp'
+  have hs := step_pat (base := base) (mj := mj) r0 r1' ht
+  obtain ⟨s2, hs2, hpc2, hca2, hlo2, hdr2, hju2, hou2⟩ : ∃ s2 : St, step seq base mj s1 = .ok s2 ∧ s2.pc = t ∧
+      s2.calls = (s1.pc + 2, none) :: s1.calls ∧ s2.loops = s1.loops ∧ s2.drum = s1.drum ∧ s2.jumps = s1.jumps ∧
+      s2.out = s1.out := ⟨_, hs, rfl, rfl, rfl, rfl, rfl, rfl⟩
+  obtain ⟨s3, r3, f3, hfin, ho3⟩ := hsub s2 hpc2 (hdr2.trans i1.drum)
+  have hret := step_return (base := base) (mj := mj) hfin (f3.calls.trans hca2)
+  obtain ⟨s4, hs4, hpc4, hn4, hr4, hca4, hlo4, hdr4, hju4, hou4⟩ : ∃ s4 : St, step seq base mj s3 = .ok s4 ∧
+      s4.pc = s1.pc + 2 ∧ s4.lastNote = none ∧ s4.lastRest = none ∧ s4.calls = s1.calls ∧ s4.loops = s3.loops ∧
+      s4.drum = s3.drum ∧ s4.jumps = s3.jumps ∧ s4.out = s3.out := ⟨_, hret, rfl, rfl, rfl, rfl, rfl, rfl, rfl, rfl⟩
+  refine ⟨s4, r1.trans (.head hs2 (by rw [hou2]; exact Nat.le_refl _) (r3.trans (.one hs4 (by rw [hou4]; exact Nat.le_refl _)))),
+    ⟨?_, ?_, ?_, ?_⟩, ⟨fun h => absurd rfl h, fun h => absurd rfl h, ?_, .inl ⟨?_, ?_, ?_⟩⟩⟩
+  · rw [hlo4, f3.loops, hlo2]; exact f1.loops
+  · rw [hca4]; exact f1.calls
+  · rw [hdr4, f3.drum, hdr2]; exact f1.drum
+  · rw [hju4, f3.jumps, hju2]; exact f1.jumps
+  · rw [hdr4, f3.drum, hdr2]; exact i1.drum
+  · exact needLenB_cmd (show mds_PAT ≥ 0xe0 by decide)
+  · rw [hpc4, i1.pc]; simp [afterPAT]
+  · rw [hou4, ho3, hou2, i1.out]
+
 
 /-! ### the interpreter going round a loop without break -/
 
@@ -296,6 +418,8 @@ theorem node_ok (nS nM : Nat) : ∀ (t : Node), t.lin = true → t.noBreak = tru
     simp only [Node.flat, Node.exp]
     exact segOk_loop n (fun e1 => list_ok nS nM body (by simpa [Node.lin] using hl) (by simpa [Node.noBreak] using hn) e1) e
   | .loopB _ _ _, _, hn, _ => by simp [Node.noBreak] at hn
+  | .xbrk, _, hn, _ => by simp [Node.noBreak] at hn
+  | .call _ _, _, hn, _ => by simp [Node.noBreak] at hn
 theorem list_ok (nS nM : Nat) : ∀ (ts : List Node), linL ts = true → noBreakL ts = true → ∀ e : Enc,
     SegOk nS nM e (flatL ts) (expL nS nM ts)
   | [], _, _, e => by simpa [flatL, expL] using segOk_nil nS nM e
